@@ -700,6 +700,29 @@ def r14_16_rename_keeps_keys_distinct(ctx, rid='R14.16'):
     r.done()
 
 
+def r14_17_key_nodes_not_written_in_place(ctx, rid='R14.17'):
+    """A key node can be shared: `outer: {&k name: 1}` / `inner: {*k : 2}` composes to one ScalarNode object standing as key in two
+    mappings.  A Node is a view on *its* mapping; a method that renames a key by overwriting the text of the key node renames the key of
+    every mapping that shares the node (known findings F32a-c).  Renaming by putting a fresh key node into the pair is the form that
+    cannot leak."""
+    P = ctx.P
+    r = ctx.rule(rid, 'the key-renaming methods of Node replace the (key, value) pair instead of overwriting the text of a key node that '
+                      'another mapping may share through an anchor', floor=2)
+    for name in ('rename_attribute', 'unders_to_dashes_in_keys', 'dashes_to_unders_in_keys'):
+        f = fn(P, 'yatiml.helpers:Node.' + name)
+        stores = [n for n in f.walk() if isinstance(n, (ast.Assign, ast.AugAssign)) and f.live(n)
+                  for t in (n.targets if isinstance(n, ast.Assign) else [n.target])
+                  if isinstance(t, ast.Attribute) and t.attr == 'value' and isinstance(t.value, ast.Name)
+                  and any(isinstance(lo, ast.For) and t.value.id in {x.id for x in ast.walk(lo.target) if isinstance(x, ast.Name)}
+                          and 'yaml_node.value' in norm(lo.iter) for lo in S.enclosing_loops(n, f.node))]
+        r.check(not stores, '%s: no key node is written in place' % name, f.key('key-node-written-in-place'),
+                f.loc(stores[0]) if stores else f.loc(),
+                '%s overwrites the text of a key node of the composed tree: on `outer: {&k name: 1}` / `inner: {*k : 2}` '
+                'outer.%s renames the key of inner as well - the two mappings share the node' % (
+                    name, "rename_attribute('name', 'title')" if name == 'rename_attribute' else name + '()'))
+    r.done()
+
+
 def r03_16_descent_reaches_registered_descendants(ctx, rid='R03.16'):
     """C03 quantifies over hierarchies with *unregistered intermediates*.  The descent from the expected class to its registered
     subclasses follows direct bases only (`expected_type in other_class.__bases__`): a registered class below an unregistered one is
